@@ -458,6 +458,18 @@ def features(case):
         f["outcome"] = obs[0] if obs[0] == "ok" else obs[1]
         # a hand-written parent constructor was handed the MISSING placeholder of the key
         f["placeholder_to_hand_written"] = bool(obs[-1])
+        # ... although the constructed class holds a DEFAULT for that key and the key attribute is still owned by
+        # the keyed class with the hand-written constructor: the library then passes the default, never the
+        # placeholder (the recorded finding is about keys without value or owned by another class)
+        f["placeholder_despite_owned_default"] = False
+        if obs[-1]:
+            t = metas.get(case["cls"])
+            for k in hier:
+                if k["hinit"] is not None and k["deco"] and k["deco"]["key"] not in ("unset", None) and t:
+                    spec = next((a for a in t["attrs"] if a["name"] == k["deco"]["key"]), None)
+                    if spec and spec["owner"] == k["id"] and spec["dflt"][0] != "none" and \
+                            not any(a == k["deco"]["key"] for a, _ in kw):
+                        f["placeholder_despite_owned_default"] = True
     return f
 
 
@@ -524,7 +536,8 @@ def main(tier, replay=None):
 
     def known_like(case):
         f = features(case)
-        return bool(f["diamond"] or f["bare_key_defaulted_by_plain_class"] or f.get("placeholder_to_hand_written"))
+        return bool(f["diamond"] or f["bare_key_defaulted_by_plain_class"]
+                    or (f.get("placeholder_to_hand_written") and not f.get("placeholder_despite_owned_default")))
     failing.sort(key=lambda fc: (known_like(fc[0]), -fc[1], len(json.dumps(fc[0]["hier"]))))
     n_suspicious = len([1 for fc in failing if not known_like(fc[0])])
     reported = {}
